@@ -80,14 +80,17 @@ func (e *Enc) pureUF(key string, resT types.Type, args []Val, st *State) (Val, b
 		}
 	}
 	var hs []string
-	for s := range e.knownSorts {
-		hs = append(hs, string(s))
+	if ct := e.contractFor(key); ct == nil || !ct.Stateless {
+		for s := range e.knownSorts {
+			hs = append(hs, string(s))
+		}
 	}
 	sort.Strings(hs)
 	for _, s := range hs {
 		argTerms = append(argTerms, e.heap(st, Sort(s)))
 		argSorts = append(argSorts, e.heapSort(Sort(s)))
 	}
+	e.assumptions["results of pure functions are functions of their arguments and the heap (no hidden inputs such as clocks or I/O): "+shortKey(key)] = true
 	out := Val{T: resT}
 	for i, s := range ls {
 		name := fmt.Sprintf("pf_%s_%d", sanitize(key), i)
